@@ -23,29 +23,262 @@ def Err.isPanic : Err → Bool
 def ValidatorOK (valid : Validator) : Prop := ∀ v, valid v = true → v.major = 1 ∨ v.major = 2
 
 theorem knownMajor_ok : ValidatorOK knownMajor := by
-  sorry
+  intro v h
+  simpa [knownMajor] using h
 
-/-! ## C15: no panic, for all decoded headers/packets and all keyring behaviours -/
+/-- the only versions the senders accept are exactly 1.0 and 2.0 -/
+theorem knownVersion_iff (v : Version) : knownVersion v = true ↔ v = v1 ∨ v = v2 := by
+  simp [knownVersion]
+
+/-- the four mode numbers are pairwise distinct (generated constants) -/
+theorem modes_distinct :
+    mtEncryption ≠ mtAttached ∧ mtEncryption ≠ mtDetached ∧ mtEncryption ≠ mtSigncryption ∧
+    mtAttached ≠ mtDetached ∧ mtAttached ≠ mtSigncryption ∧ mtDetached ≠ mtSigncryption := by
+  simp only [mtEncryption, mtAttached, mtDetached, mtSigncryption,
+    Gen.c_sp_MessageTypeEncryption, Gen.c_sp_MessageTypeAttachedSignature,
+    Gen.c_sp_MessageTypeDetachedSignature, Gen.c_sp_MessageTypeSigncryption]
+  decide
+
+/-! ## C15: no panic, for all decoded headers/packets and all keyring behaviours
+
+  NOTE on `htail` / `hsr`: the packet stream's `Tail.err e` (and `SigRead.none e`
+  for detached signatures) carries the error the *underlying reader / decoder*
+  reported, as an arbitrary `Err`, and the receivers hand it through unchanged.
+  The theorems therefore assume that this input error is not itself `Err.panic _`
+  (it is an I/O or decode error, never a panic of this code); without the
+  assumption they are false, see `ver_tail_panic_propagates`,
+  `det_sigread_panic_propagates`, `dec_run_tail_propagates`. -/
+
+/-- "this result is not a panic" -/
+def NP {α : Type} (r : Except Err α) : Prop := ∀ e, r = .error e → Err.isPanic e = false
+
+@[simp] theorem NP_ok {α : Type} (a : α) : NP (Except.ok a : Except Err α) := by
+  intro e h; cases h
+
+@[simp] theorem NP_error {α : Type} (e : Err) : NP (Except.error e : Except Err α) ↔ Err.isPanic e = false := by
+  constructor
+  · intro h; exact h e rfl
+  · intro h e' h'; cases h'; exact h
+
+theorem payloadKeyBox_no_panic (v : Version) (hv : v.major = 1 ∨ v.major = 2) (i : Nat) :
+    NP (Nonce.payloadKeyBox v i) := by
+  unfold Nonce.payloadKeyBox
+  rcases hv with hv | hv <;> simp [hv]
+
+theorem tryVisible_no_panic (P : Prims) (kr : Keyring) (h : EncHeader) (eph : Bytes)
+    (hv : h.version.major = 1 ∨ h.version.major = 2) : NP (Decrypt.tryVisible P kr h eph).2 := by
+  have hk := payloadKeyBox_no_panic h.version hv
+  unfold Decrypt.tryVisible
+  simp only []
+  repeat' split
+  all_goals (try simp only [NP_ok, NP_error])
+  all_goals first | rfl | (rename_i heq; exact hk _ _ heq)
+
+theorem tryHiddenOne_no_panic (P : Prims) (v : Version) (hv : v.major = 1 ∨ v.major = 2)
+    (sk eph : Bytes) (l : List (RecvKeys × Nat)) : NP (Decrypt.tryHiddenOne P v sk eph l).2 := by
+  have hk := payloadKeyBox_no_panic v hv
+  induction l with
+  | nil => simp [Decrypt.tryHiddenOne]
+  | cons x rest ih =>
+    obtain ⟨r, i⟩ := x
+    unfold Decrypt.tryHiddenOne
+    repeat' split
+    all_goals (try simp only [NP_ok, NP_error])
+    all_goals (first | rfl | exact ih | (rename_i heq; exact hk _ _ heq) | (rename_i heq; rw [heq] at ih; exact ih))
+
+theorem tryHidden_no_panic (P : Prims) (h : EncHeader) (hv : h.version.major = 1 ∨ h.version.major = 2)
+    (eph : Bytes) (sks : List Bytes) : NP (Decrypt.tryHidden P h eph sks).2 := by
+  induction sks with
+  | nil => simp [Decrypt.tryHidden]
+  | cons sk sks ih =>
+    have h1 := tryHiddenOne_no_panic P h.version hv sk eph h.receivers.zipIdx
+    unfold Decrypt.tryHidden
+    repeat' split
+    all_goals (try simp only [NP_ok, NP_error])
+    all_goals (first | rfl | exact ih | (rename_i heq; rw [heq] at ih; exact ih) | (rename_i heq; rw [heq] at h1; exact h1 _ rfl))
+
+theorem macKeyReceiver_no_panic (P : Prims) (v : Version) (hv : v.major = 1 ∨ v.major = 2)
+    (index : Nat) (secret pub ePub hh : Bytes) :
+    NP (Decrypt.macKeyReceiver P v index secret pub ePub hh).2 := by
+  unfold Decrypt.macKeyReceiver
+  rcases hv with hv | hv <;> simp [hv]
+
+
+theorem dec_validate_ok (valid : Validator) (h : EncHeader) (hok : Decrypt.validate valid h = .ok ()) :
+    h.formatName = Gen.c_sp_FormatName ∧ valid h.version = true ∧ h.typ = mtEncryption := by
+  unfold Decrypt.validate at hok
+  split at hok
+  · cases hok
+  · split at hok
+    · cases hok
+    · split at hok
+      · rename_i h1 h2 h3
+        simp at h1 h2
+        exact ⟨h1, h3, h2⟩
+      · cases hok
+
+theorem dec_validate_no_panic (valid : Validator) (h : EncHeader) : NP (Decrypt.validate valid h) := by
+  unfold Decrypt.validate
+  repeat' split
+  all_goals simp [Err.isPanic]
+
+
+theorem dec_processHeader_validate (P : Prims) (valid : Validator) (kr : Keyring) (hh : Bytes) (h : EncHeader)
+    (log : List KeyCall) (st : Decrypt.State)
+    (hok : Decrypt.processHeader P valid kr hh h = (log, .ok st)) :
+    Decrypt.validate valid h = .ok () := by
+  unfold Decrypt.processHeader at hok
+  split at hok
+  · cases hok
+  · assumption
+
+theorem dec_processHeader_version (P : Prims) (valid : Validator) (kr : Keyring) (hh : Bytes) (h : EncHeader)
+    (log : List KeyCall) (st : Decrypt.State)
+    (hok : Decrypt.processHeader P valid kr hh h = (log, .ok st)) :
+    st.version = h.version := by
+  unfold Decrypt.processHeader at hok
+  simp only [] at hok
+  repeat' split at hok
+  all_goals (try cases hok)
+  all_goals (try rfl)
+
+
+theorem dec_processHeader_no_panic (P : Prims) (valid : Validator) (hvalid : ValidatorOK valid)
+    (kr : Keyring) (hh : Bytes) (h : EncHeader) :
+    NP (Decrypt.processHeader P valid kr hh h).2 := by
+  cases hval : Decrypt.validate valid h with
+  | error e =>
+    have := dec_validate_no_panic valid h e hval
+    unfold Decrypt.processHeader
+    rw [hval]
+    simpa using this
+  | ok u =>
+    have hv := hvalid _ (dec_validate_ok valid h hval).2.1
+    have h1 := fun eph => tryVisible_no_panic P kr h eph hv
+    have h2 := tryHidden_no_panic P h hv
+    have h3 := macKeyReceiver_no_panic P h.version hv
+    intro e he
+    generalize hres : Decrypt.processHeader P valid kr hh h = r at he
+    obtain ⟨log, res⟩ := r
+    simp only at he
+    subst he
+    unfold Decrypt.processHeader at hres
+    rw [hval] at hres
+    simp only [] at hres
+    repeat' split at hres
+    all_goals (try cases hres)
+    all_goals (try rfl)
+    all_goals (first | (rename_i heq; exact h1 _ _ heq) | (rename_i heq; exact h3 _ _ _ _ _ _ heq) | (rename_i heq; exact h2 _ _ _ heq) | (rename_i heq; cases heq))
+
+
+theorem endOfStream_no_panic {β : Type} (rest : List (Option β)) (tail : Tail)
+    (htail : ∀ e, tail = .err e → Err.isPanic e = false) (e : Err)
+    (h : Decrypt.endOfStream rest tail = some e) : Err.isPanic e = false := by
+  unfold Decrypt.endOfStream at h
+  split at h
+  · cases h; rfl
+  · split at h
+    · cases h
+    · cases h; exact htail _ rfl
+
+theorem payloadHash_no_panic (P : Prims) (v : Version) (hv : v.major = 1 ∨ v.major = 2)
+    (hh nonce ct : Bytes) (f : Bool) : NP (payloadHash P v hh nonce ct f) := by
+  unfold payloadHash
+  rcases hv with hv | hv <;> simp [hv]
+
+theorem dec_processBlock_no_panic (P : Prims) (s : Decrypt.State)
+    (hv : s.version.major = 1 ∨ s.version.major = 2) (b : EncBlock) (f : Bool) (seqno : Nat) :
+    NP (Decrypt.processBlock P s b f seqno) := by
+  have h1 := payloadHash_no_panic P s.version hv
+  unfold Decrypt.processBlock
+  simp only []
+  repeat' split
+  all_goals (try simp only [NP_ok, NP_error])
+  all_goals (first | rfl | (rename_i heq; exact h1 _ _ _ _ _ heq))
+
+theorem dec_processBlock_len (P : Prims) (hP : P.Lawful) (s : Decrypt.State) (b : EncBlock) (f : Bool)
+    (seqno : Nat) (chunk : Bytes) (h : Decrypt.processBlock P s b f seqno = .ok chunk) :
+    b.ct.length = chunk.length + 16 := by
+  unfold Decrypt.processBlock at h
+  simp only [] at h
+  repeat' split at h
+  all_goals (try cases h)
+  rename_i heq
+  exact hP.sb_open_len _ _ _ _ heq
+
+theorem checkChunkState_v1 (v : Version) (hv : v.major = 1) (n i : Nat) (f : Bool)
+    (hf : (n == 0) = f) : checkChunkState v n i f = .ok () := by
+  unfold checkChunkState
+  simp [hv, hf]
+
+theorem checkChunkState_v2_no_panic (v : Version) (hv : v.major = 2) (n i : Nat) (f : Bool) :
+    NP (checkChunkState v n i f) := by
+  unfold checkChunkState
+  have : ¬ v.major = 1 := by omega
+  rw [if_neg this, if_pos hv]
+  split <;> simp [Err.isPanic]
+
+theorem dec_run_no_panic (P : Prims) (hP : P.Lawful) (s : Decrypt.State)
+    (hv : s.version.major = 1 ∨ s.version.major = 2) (tail : Tail)
+    (htail : ∀ e, tail = .err e → Err.isPanic e = false) :
+    ∀ (items : List (Option EncBlock)) (seqno : Nat) (e : Err),
+      (Decrypt.run P s items tail seqno).err = some e → Err.isPanic e = false := by
+  intro items
+  induction items with
+  | nil =>
+    intro seqno e h
+    unfold Decrypt.run at h
+    split at h
+    · cases h; rfl
+    · cases h; exact htail _ rfl
+  | cons x rest ih =>
+    intro seqno e h
+    cases x with
+    | none => unfold Decrypt.run at h; cases h; rfl
+    | some b =>
+      unfold Decrypt.run at h
+      simp only [] at h
+      split at h
+      · rename_i e' heq
+        cases h
+        exact dec_processBlock_no_panic P s hv b _ seqno _ heq
+      · rename_i chunk heq
+        have hlen := dec_processBlock_len P hP s b _ seqno chunk heq
+        split at h
+        · rename_i e' heq2
+          cases h
+          rcases hv with hv | hv
+          · rw [checkChunkState_v1 s.version hv] at heq2
+            · cases heq2
+            · simp [Decrypt.blockFinal, hv, hlen]
+          · exact checkChunkState_v2_no_panic s.version hv _ _ _ _ heq2
+        · split at h
+          · exact endOfStream_no_panic rest tail htail e h
+          · exact ih _ _ h
+
 
 theorem dec_no_panic (P : Prims) (hP : P.Lawful) (valid : Validator) (hvalid : ValidatorOK valid)
-    (kr : Keyring) (hr : HeaderRead EncHeader) (ps : PStream EncBlock) (e : Err)
+    (kr : Keyring) (hr : HeaderRead EncHeader) (ps : PStream EncBlock)
+    (htail : ∀ e, ps.tail = .err e → Err.isPanic e = false) (e : Err)
     (h : (Decrypt.openStream P valid kr hr ps).err = some e) : Err.isPanic e = false := by
-  sorry
-
-theorem sc_no_panic (P : Prims) (kr : Keyring) (res : Signcrypt.Resolver)
-    (hr : HeaderRead EncHeader) (ps : PStream SigncryptBlock) (e : Err)
-    (h : (Signcrypt.openStream P kr res hr ps).err = some e) : Err.isPanic e = false := by
-  sorry
-
-theorem ver_no_panic (P : Prims) (valid : Validator) (hvalid : ValidatorOK valid)
-    (kr : Keyring) (hr : HeaderRead SigHeader) (ps : PStream SigBlock) (e : Err)
-    (h : (Sign.verifyStream P valid kr hr ps).err = some e) : Err.isPanic e = false := by
-  sorry
-
-theorem det_no_panic (P : Prims) (valid : Validator) (kr : Keyring)
-    (hr : HeaderRead SigHeader) (sr : Sign.SigRead) (msg : Bytes) (e : Err)
-    (h : Sign.verifyDetached P valid kr hr sr msg = .error e) : Err.isPanic e = false := by
-  sorry
+  unfold Decrypt.openStream at h
+  cases hr with
+  | unreadable => cases h; rfl
+  | undecodable hb => cases h; rfl
+  | ok hb hd =>
+    simp only [] at h
+    split at h
+    · rename_i log e' heq
+      cases h
+      have := dec_processHeader_no_panic P valid hvalid kr (P.hash hb) hd e
+      rw [heq] at this
+      exact this rfl
+    · rename_i log st heq
+      have hver := dec_processHeader_version P valid kr _ hd log st heq
+      have hval := dec_processHeader_validate P valid kr _ hd log st heq
+      have hv := hvalid _ (dec_validate_ok valid hd hval).2.1
+      rw [← hver] at hv
+      exact dec_run_no_panic P hP st hv ps.tail htail ps.items 1 e h
 
 /-- a validator that admits another major does lead to the documented panics —
     the hypothesis `ValidatorOK` is necessary (non-vacuity of the guard) -/
@@ -53,7 +286,10 @@ theorem dec_panics_on_major3 (P : Prims) :
     ∃ (kr : Keyring) (h : EncHeader) (hb : Bytes),
       Err.isPanic (match (Decrypt.openStream P (fun _ => true) kr (.ok hb h) ⟨[], .eof⟩).err with
         | some e => e | none => .badVersion) = true := by
-  sorry
+  refine ⟨⟨fun _ => (0, some []), fun _ => none, [], fun k => some k, fun _ => none⟩,
+    ⟨Gen.c_sp_FormatName, ⟨3, 0⟩, mtEncryption, [], [], [⟨some [1], []⟩]⟩, [], ?_⟩
+  simp [Decrypt.openStream, Decrypt.processHeader, Decrypt.validate, Decrypt.tryVisible,
+    Decrypt.visibleIndices, Nonce.payloadKeyBox, Err.isPanic, List.zipIdx]
 
 /-! ## C17: gating on the receiving side -/
 
@@ -62,20 +298,8 @@ theorem dec_panics_on_major3 (P : Prims) :
 theorem enc_gate (P : Prims) (valid : Validator) (kr : Keyring) (hh : Bytes) (h : EncHeader)
     (log : List KeyCall) (st : Decrypt.State)
     (hok : Decrypt.processHeader P valid kr hh h = (log, .ok st)) :
-    h.formatName = Gen.c_sp_FormatName ∧ valid h.version = true ∧ h.typ = mtEncryption := by
-  sorry
-
-theorem sc_gate (P : Prims) (kr : Keyring) (res : Signcrypt.Resolver) (hh : Bytes) (h : EncHeader)
-    (log : List KeyCall) (st : Signcrypt.State)
-    (hok : Signcrypt.processHeader P kr res hh h = (log, .ok st)) :
-    h.formatName = Gen.c_sp_FormatName ∧ h.version.major = 2 ∧ h.typ = mtSigncryption := by
-  sorry
-
-theorem ver_gate (P : Prims) (valid : Validator) (kr : Keyring) (hb : Bytes) (h : SigHeader)
-    (ps : PStream SigBlock)
-    (hok : (Sign.verifyStream P valid kr (.ok hb h) ps).err = none) :
-    h.formatName = Gen.c_sp_FormatName ∧ valid h.version = true ∧ h.typ = mtAttached := by
-  sorry
+    h.formatName = Gen.c_sp_FormatName ∧ valid h.version = true ∧ h.typ = mtEncryption :=
+  dec_validate_ok valid h (dec_processHeader_validate P valid kr hh h log st hok)
 
 /-- releasing anything at all already requires the gate -/
 theorem enc_gate_released (P : Prims) (valid : Validator) (kr : Keyring) (hb : Bytes) (h : EncHeader)
@@ -83,26 +307,313 @@ theorem enc_gate_released (P : Prims) (valid : Validator) (kr : Keyring) (hb : B
     (hrel : (Decrypt.openStream P valid kr (.ok hb h) ps).released ≠ [] ∨
             (Decrypt.openStream P valid kr (.ok hb h) ps).err = none) :
     h.formatName = Gen.c_sp_FormatName ∧ valid h.version = true ∧ h.typ = mtEncryption := by
-  sorry
+  unfold Decrypt.openStream at hrel
+  simp only [] at hrel
+  split at hrel
+  · simp at hrel
+  · rename_i log st heq
+    exact enc_gate P valid kr _ h log st heq
+
+
+
+theorem sc_validate_ok (h : EncHeader) (hok : Signcrypt.validate h = .ok ()) :
+    h.formatName = Gen.c_sp_FormatName ∧ h.version.major = 2 ∧ h.typ = mtSigncryption := by
+  unfold Signcrypt.validate at hok
+  split at hok
+  · cases hok
+  · split at hok
+    · cases hok
+    · split at hok
+      · cases hok
+      · rename_i h1 h2 h3
+        simp at h1 h2 h3
+        exact ⟨h1, h3, h2⟩
+
+theorem sc_validate_no_panic (h : EncHeader) : NP (Signcrypt.validate h) := by
+  unfold Signcrypt.validate
+  repeat' split
+  all_goals simp [Err.isPanic]
+
+theorem tryBoxOne_no_panic (P : Prims) (dks : List Bytes) (r : RecvKeys) (i : Nat) (e : Err)
+    (h : Signcrypt.tryBoxOne P dks r i = some (.error e)) : Err.isPanic e = false := by
+  induction dks with
+  | nil => simp [Signcrypt.tryBoxOne] at h
+  | cons dk rest ih =>
+    unfold Signcrypt.tryBoxOne at h
+    repeat' split at h
+    all_goals (first | exact ih h | (cases h; rfl) | cases h)
+
+theorem tryBox_no_panic (P : Prims) (dks : List Bytes) (l : List (RecvKeys × Nat)) :
+    NP (Signcrypt.tryBox P dks l) := by
+  induction l with
+  | nil => simp [Signcrypt.tryBox]
+  | cons x rest ih =>
+    obtain ⟨r, i⟩ := x
+    unfold Signcrypt.tryBox
+    split
+    · simp
+    · rename_i e heq
+      simp only [NP_error]
+      exact tryBoxOne_no_panic P dks r i e heq
+    · exact ih
+
+
+theorem trySym_go_no_panic (P : Prims) (ephPub : Bytes) (l : List (Option Bytes × RecvKeys × Nat)) :
+    NP (Signcrypt.trySym.go P ephPub l) := by
+  induction l with
+  | nil => simp [Signcrypt.trySym.go]
+  | cons x rest ih =>
+    obtain ⟨k, r, i⟩ := x
+    cases k with
+    | none => unfold Signcrypt.trySym.go; exact ih
+    | some k =>
+      unfold Signcrypt.trySym.go
+      simp only []
+      repeat' split
+      all_goals simp [Err.isPanic]
+
+theorem trySym_no_panic (P : Prims) (res : Signcrypt.Resolver) (h : EncHeader) (ephPub : Bytes) :
+    NP (Signcrypt.trySym P res h ephPub) := by
+  unfold Signcrypt.trySym
+  simp only []
+  repeat' split
+  all_goals (first | exact trySym_go_no_panic P ephPub _ | simp [Err.isPanic])
+
+theorem sc_processHeader_validate (P : Prims) (kr : Keyring) (res : Signcrypt.Resolver) (hh : Bytes)
+    (h : EncHeader) (log : List KeyCall) (st : Signcrypt.State)
+    (hok : Signcrypt.processHeader P kr res hh h = (log, .ok st)) :
+    Signcrypt.validate h = .ok () := by
+  unfold Signcrypt.processHeader at hok
+  split at hok
+  · cases hok
+  · assumption
+
+theorem sc_processHeader_no_panic (P : Prims) (kr : Keyring) (res : Signcrypt.Resolver) (hh : Bytes)
+    (h : EncHeader) : NP (Signcrypt.processHeader P kr res hh h).2 := by
+  have h0 := sc_validate_no_panic h
+  have h1 := tryBox_no_panic P
+  have h2 := trySym_no_panic P res h
+  intro e he
+  generalize hres : Signcrypt.processHeader P kr res hh h = r at he
+  obtain ⟨log, r⟩ := r
+  simp only at he
+  subst he
+  unfold Signcrypt.processHeader at hres
+  simp only [] at hres
+  repeat' split at hres
+  all_goals (try cases hres)
+  all_goals (try rfl)
+  · rename_i heq
+    exact h0 _ heq
+  · rename_i heq
+    split at heq
+    · rename_i heq2
+      cases heq
+      exact h1 _ _ _ heq2
+    · cases heq
+    · exact h2 _ _ heq
+
+
+theorem sc_processBlock_no_panic (P : Prims) (s : Signcrypt.State) (b : SigncryptBlock) (seqno : Nat) :
+    NP (Signcrypt.processBlock P s b seqno) := by
+  unfold Signcrypt.processBlock
+  simp only []
+  repeat' split
+  all_goals simp [Err.isPanic]
+
+theorem sc_run_no_panic (P : Prims) (s : Signcrypt.State) (tail : Tail)
+    (htail : ∀ e, tail = .err e → Err.isPanic e = false) :
+    ∀ (items : List (Option SigncryptBlock)) (seqno : Nat) (e : Err),
+      (Signcrypt.run P s items tail seqno).err = some e → Err.isPanic e = false := by
+  intro items
+  induction items with
+  | nil =>
+    intro seqno e h
+    unfold Signcrypt.run at h
+    split at h
+    · cases h; rfl
+    · cases h; exact htail _ rfl
+  | cons x rest ih =>
+    intro seqno e h
+    cases x with
+    | none => unfold Signcrypt.run at h; cases h; rfl
+    | some b =>
+      unfold Signcrypt.run at h
+      simp only [] at h
+      split at h
+      · rename_i e' heq
+        cases h
+        exact sc_processBlock_no_panic P s b seqno _ heq
+      · split at h
+        · rename_i e' heq2
+          cases h
+          exact checkChunkState_v2_no_panic v2 rfl _ _ _ _ heq2
+        · split at h
+          · exact endOfStream_no_panic rest tail htail e h
+          · exact ih _ _ h
+
+theorem sc_no_panic (P : Prims) (kr : Keyring) (res : Signcrypt.Resolver)
+    (hr : HeaderRead EncHeader) (ps : PStream SigncryptBlock)
+    (htail : ∀ e, ps.tail = .err e → Err.isPanic e = false) (e : Err)
+    (h : (Signcrypt.openStream P kr res hr ps).err = some e) : Err.isPanic e = false := by
+  unfold Signcrypt.openStream at h
+  cases hr with
+  | unreadable => cases h; rfl
+  | undecodable hb => cases h; rfl
+  | ok hb hd =>
+    simp only [] at h
+    split at h
+    · rename_i log e' heq
+      cases h
+      have := sc_processHeader_no_panic P kr res (P.hash hb) hd e
+      rw [heq] at this
+      exact this rfl
+    · exact sc_run_no_panic P _ ps.tail htail ps.items 1 e h
+
+theorem sc_gate (P : Prims) (kr : Keyring) (res : Signcrypt.Resolver) (hh : Bytes) (h : EncHeader)
+    (log : List KeyCall) (st : Signcrypt.State)
+    (hok : Signcrypt.processHeader P kr res hh h = (log, .ok st)) :
+    h.formatName = Gen.c_sp_FormatName ∧ h.version.major = 2 ∧ h.typ = mtSigncryption :=
+  sc_validate_ok h (sc_processHeader_validate P kr res hh h log st hok)
 
 theorem sc_gate_released (P : Prims) (kr : Keyring) (res : Signcrypt.Resolver) (hb : Bytes) (h : EncHeader)
     (ps : PStream SigncryptBlock)
     (hrel : (Signcrypt.openStream P kr res (.ok hb h) ps).released ≠ [] ∨
             (Signcrypt.openStream P kr res (.ok hb h) ps).err = none) :
     h.formatName = Gen.c_sp_FormatName ∧ h.version.major = 2 ∧ h.typ = mtSigncryption := by
-  sorry
+  unfold Signcrypt.openStream at hrel
+  simp only [] at hrel
+  split at hrel
+  · simp at hrel
+  · rename_i log st heq
+    exact sc_gate P kr res _ h log st heq
+
+
+theorem sig_validate_ok (valid : Validator) (h : SigHeader) (typ : Int)
+    (hok : Sign.validate valid h typ = .ok ()) :
+    h.formatName = Gen.c_sp_FormatName ∧ valid h.version = true ∧ h.typ = typ := by
+  unfold Sign.validate at hok
+  repeat' split at hok
+  all_goals (try cases hok)
+  rename_i h1 h2 h3 h4
+  simp at h1 h2 h3
+  exact ⟨h1, h2, h3⟩
+
+theorem sig_validate_no_panic (valid : Validator) (h : SigHeader) (typ : Int) :
+    NP (Sign.validate valid h typ) := by
+  unfold Sign.validate
+  repeat' split
+  all_goals simp [Err.isPanic]
+
+theorem attachedSignatureInput_no_panic (P : Prims) (v : Version) (hv : v.major = 1 ∨ v.major = 2)
+    (hh chunk : Bytes) (seqno : Nat) (f : Bool) : NP (attachedSignatureInput P v hh chunk seqno f) := by
+  unfold attachedSignatureInput
+  rcases hv with hv | hv <;> simp [hv]
+
+theorem sig_processBlock_no_panic (P : Prims) (s : Sign.State)
+    (hv : s.version.major = 1 ∨ s.version.major = 2) (b : SigBlock) (f : Bool) (seqno : Nat) :
+    NP (Sign.processBlock P s b f seqno) := by
+  have h1 := attachedSignatureInput_no_panic P s.version hv
+  unfold Sign.processBlock
+  repeat' split
+  all_goals (try simp only [NP_ok, NP_error])
+  all_goals (first | rfl | (rename_i heq; exact h1 _ _ _ _ _ heq))
+
+theorem sig_run_no_panic (P : Prims) (s : Sign.State)
+    (hv : s.version.major = 1 ∨ s.version.major = 2) (tail : Tail)
+    (htail : ∀ e, tail = .err e → Err.isPanic e = false) :
+    ∀ (items : List (Option SigBlock)) (seqno : Nat) (e : Err),
+      (Sign.run P s items tail seqno).err = some e → Err.isPanic e = false := by
+  intro items
+  induction items with
+  | nil =>
+    intro seqno e h
+    unfold Sign.run at h
+    split at h
+    · cases h; rfl
+    · cases h; exact htail _ rfl
+  | cons x rest ih =>
+    intro seqno e h
+    cases x with
+    | none => unfold Sign.run at h; cases h; rfl
+    | some b =>
+      unfold Sign.run at h
+      simp only [] at h
+      split at h
+      · rename_i e' heq
+        cases h
+        exact sig_processBlock_no_panic P s hv b _ seqno _ heq
+      · split at h
+        · rename_i e' heq2
+          cases h
+          rcases hv with hv | hv
+          · rw [checkChunkState_v1 s.version hv] at heq2
+            · cases heq2
+            · simp only [Sign.blockFinal, hv, if_true]
+              cases b.chunk <;> simp
+          · exact checkChunkState_v2_no_panic s.version hv _ _ _ _ heq2
+        · split at h
+          · exact endOfStream_no_panic rest tail htail e h
+          · exact ih _ _ h
+
+theorem ver_no_panic (P : Prims) (valid : Validator) (hvalid : ValidatorOK valid)
+    (kr : Keyring) (hr : HeaderRead SigHeader) (ps : PStream SigBlock)
+    (htail : ∀ e, ps.tail = .err e → Err.isPanic e = false) (e : Err)
+    (h : (Sign.verifyStream P valid kr hr ps).err = some e) : Err.isPanic e = false := by
+  unfold Sign.verifyStream at h
+  cases hr with
+  | unreadable => cases h; rfl
+  | undecodable hb => cases h; rfl
+  | ok hb hd =>
+    simp only [] at h
+    split at h
+    · rename_i e' heq
+      cases h
+      exact sig_validate_no_panic valid hd _ _ heq
+    · rename_i heq
+      have hv := hvalid _ (sig_validate_ok valid hd _ heq).2.1
+      split at h
+      · cases h; rfl
+      · split at h
+        · rename_i hc
+          exfalso
+          rcases hv with hv | hv <;> simp [hv] at hc
+        · exact sig_run_no_panic P _ hv ps.tail htail ps.items 1 e h
+
+theorem det_no_panic (P : Prims) (valid : Validator) (kr : Keyring)
+    (hr : HeaderRead SigHeader) (sr : Sign.SigRead) (msg : Bytes)
+    (hsr : ∀ e, sr = .none e → Err.isPanic e = false) (e : Err)
+    (h : Sign.verifyDetached P valid kr hr sr msg = .error e) : Err.isPanic e = false := by
+  unfold Sign.verifyDetached at h
+  repeat' split at h
+  all_goals (try cases h)
+  all_goals (try rfl)
+  · rename_i heq
+    exact sig_validate_no_panic valid _ _ _ heq
+  · exact hsr _ rfl
+
+theorem ver_gate (P : Prims) (valid : Validator) (kr : Keyring) (hb : Bytes) (h : SigHeader)
+    (ps : PStream SigBlock)
+    (hok : (Sign.verifyStream P valid kr (.ok hb h) ps).err = none) :
+    h.formatName = Gen.c_sp_FormatName ∧ valid h.version = true ∧ h.typ = mtAttached := by
+  unfold Sign.verifyStream at hok
+  simp only [] at hok
+  split at hok
+  · cases hok
+  · rename_i heq
+    exact sig_validate_ok valid h _ heq
 
 theorem ver_gate_released (P : Prims) (valid : Validator) (kr : Keyring) (hb : Bytes) (h : SigHeader)
     (ps : PStream SigBlock)
     (hrel : (Sign.verifyStream P valid kr (.ok hb h) ps).released ≠ []) :
     h.formatName = Gen.c_sp_FormatName ∧ valid h.version = true ∧ h.typ = mtAttached := by
-  sorry
+  unfold Sign.verifyStream at hrel
+  simp only [] at hrel
+  split at hrel
+  · simp at hrel
+  · rename_i heq
+    exact sig_validate_ok valid h _ heq
 
-/-- the four mode numbers are pairwise distinct (generated constants) -/
-theorem modes_distinct :
-    mtEncryption ≠ mtAttached ∧ mtEncryption ≠ mtDetached ∧ mtEncryption ≠ mtSigncryption ∧
-    mtAttached ≠ mtDetached ∧ mtAttached ≠ mtSigncryption ∧ mtDetached ≠ mtSigncryption := by
-  sorry
 
 /-! ## C17: gating on the sending side — unknown versions are refused with an
     error, before anything is drawn or written -/
@@ -110,17 +621,25 @@ theorem modes_distinct :
 theorem seal_refuses_unknown (P : Prims) (bs : Nat) (v : Version) (hv : knownVersion v = false)
     (sender : Option Bytes) (rs : List Encrypt.Recipient) (eph : Encrypt.EphSource) (src : Rand.Source) (pt : Bytes) :
     Encrypt.sealRand P bs v sender rs eph src pt = .error .badVersion := by
-  sorry
+  unfold Encrypt.sealRand
+  simp [hv]
 
 theorem sign_refuses_unknown (P : Prims) (bs : Nat) (v : Version) (hv : knownVersion v = false)
     (signer : Bytes) (src : Rand.Source) (msg : Bytes) :
     Sign.attachedRand P bs v signer src msg = .error .badVersion ∧
     Sign.detachedRand P v signer src msg = .error .badVersion := by
-  sorry
+  unfold Sign.attachedRand Sign.detachedRand
+  simp [hv]
 
-/-- the only versions the senders accept are exactly 1.0 and 2.0 -/
-theorem knownVersion_iff (v : Version) : knownVersion v = true ↔ v = v1 ∨ v = v2 := by
-  sorry
+theorem enc_header_fields (P : Prims) (v : Version) (sender : Option Bytes) (eph pk : Bytes)
+    (rs : List Encrypt.Recipient) (h : EncHeader) (hh : Encrypt.header P v sender eph pk rs = .ok h) :
+    h.formatName = Gen.c_sp_FormatName ∧ h.version = v ∧ h.typ = mtEncryption := by
+  unfold Encrypt.header at hh
+  simp only [] at hh
+  split at hh
+  · cases hh
+  · cases hh
+    exact ⟨rfl, rfl, rfl⟩
 
 /-- a sender that succeeds labels the message with the requested, known version
     and its own mode -/
@@ -128,12 +647,55 @@ theorem seal_labels (P : Prims) (bs : Nat) (v : Version) (sender : Option Bytes)
     (eph pk pt : Bytes) (h : EncHeader) (hb : Bytes) (blks : List EncBlock)
     (hs : Encrypt.sealPackets P bs v sender rs eph pk pt = .ok (h, hb, blks)) :
     h.formatName = Gen.c_sp_FormatName ∧ h.version = v ∧ (v = v1 ∨ v = v2) ∧ h.typ = mtEncryption := by
-  sorry
+  unfold Encrypt.sealPackets at hs
+  simp only [] at hs
+  repeat' split at hs
+  all_goals (try cases hs)
+  have hk : knownVersion v = true := by
+    cases hk : knownVersion v with
+    | true => rfl
+    | false => simp [hk] at *
+  have := enc_header_fields P v sender eph pk rs h (by assumption)
+  exact ⟨this.1, this.2.1, (knownVersion_iff v).1 hk, this.2.2⟩
 
 theorem sign_labels (P : Prims) (bs : Nat) (v : Version) (signer nonce msg : Bytes)
     (h : SigHeader) (hb : Bytes) (blks : List SigBlock)
     (hs : Sign.attachedPackets P bs v signer nonce msg = .ok (h, hb, blks)) :
     h.formatName = Gen.c_sp_FormatName ∧ h.version = v ∧ (v = v1 ∨ v = v2) ∧ h.typ = mtAttached := by
-  sorry
+  unfold Sign.attachedPackets at hs
+  simp only [] at hs
+  repeat' split at hs
+  all_goals (try cases hs)
+  have hk : knownVersion v = true := by
+    cases hk : knownVersion v with
+    | true => rfl
+    | false => simp [hk] at *
+  exact ⟨rfl, rfl, (knownVersion_iff v).1 hk, rfl⟩
+
+/-! ## necessity of the added input hypotheses `htail` / `hsr` -/
+
+/-- without `htail`, `ver_no_panic` is false: a reader error that happens to be
+    `Err.panic _` is handed through (for every `P`) -/
+theorem ver_tail_panic_propagates (P : Prims) :
+    ∃ (kr : Keyring) (h : SigHeader) (hb : Bytes),
+      (Sign.verifyStream P knownMajor kr (.ok hb h) ⟨[], .err (.panic "reader")⟩).err
+        = some (.panic "reader") := by
+  refine ⟨⟨fun _ => (0, none), fun _ => none, [], fun _ => none, fun _ => some []⟩,
+    ⟨Gen.c_sp_FormatName, v1, mtAttached, [], []⟩, [], ?_⟩
+  simp [Sign.verifyStream, Sign.validate, Sign.run, knownMajor, v1, mtAttached, mtDetached]
+
+/-- without `hsr`, `det_no_panic` is false -/
+theorem det_sigread_panic_propagates (P : Prims) :
+    ∃ (kr : Keyring) (h : SigHeader) (hb : Bytes),
+      Sign.verifyDetached P knownMajor kr (.ok hb h) (.none (.panic "reader")) []
+        = .error (.panic "reader") := by
+  refine ⟨⟨fun _ => (0, none), fun _ => none, [], fun _ => none, fun _ => some []⟩,
+    ⟨Gen.c_sp_FormatName, v1, mtDetached, [], []⟩, [], ?_⟩
+  simp [Sign.verifyDetached, Sign.validate, knownMajor, v1, mtAttached, mtDetached]
+
+/-- the same hand-through in the decryption and signcryption runs -/
+theorem dec_run_tail_propagates (P : Prims) (st : Decrypt.State) (st' : Signcrypt.State) (e : Err) (n : Nat) :
+    (Decrypt.run P st [] (.err e) n).err = some e ∧ (Signcrypt.run P st' [] (.err e) n).err = some e := by
+  simp [Decrypt.run, Signcrypt.run]
 
 end Saltpack.Proofs
